@@ -24,7 +24,9 @@ PROP = dict(
             "is the crashed flag, excluded by the client discipline (Zeno stops every stage and the source before reactor.Stop()).",
     assumptions=["Go channels are linearizable FIFO queues, sync.Map operations (Load, LoadOrStore, CompareAndSwap, LoadAndDelete) are atomic, "
                  "context cancellation is monotone and a cancelled parent cancels its child; select fires any ready arm",
-                 "one *models.Item per seed id (the state table is modelled as a set of ids; CompareAndSwap then succeeds iff the entry is present)",
+                 "the model is id-based by construction: operations carry a seed id, the state table is a set of ids, so no answer can depend on "
+                 "which *models.Item object carries the id (a CompareAndSwap in ReceiveFeedback that fails because another object was stored "
+                 "meanwhile is retried by the loop: a stutter); the drivers issue feedback / finish with distinct objects of the same id in 60% of the cases",
                  "items passed to the reactor are seeds (the IsSeed() panic path is not exercised)"],
     level_text="Theorems over ALL label sequences of a labelled transition system whose steps are the individual channel / sync.Map / "
                "context operations of reactor.go (any number of concurrent calls, every select arm chosen by the label, all token counts "
